@@ -17,6 +17,15 @@ CHECKS = {
          "parameters of an arbitrary commutative ring and all duplicate policies. Correspondence X-rw-dict/X-rw-par/"
          "X-rw-kernel compares every returned cell (read through the returned labels) with the model's exact rational.",
          "5 shared core, C01", "Coq proof (refinement to RW spec) + exact-rational differential correspondence"),
+ "C02": ("proof", "Theorems C02_threading_schedule_independent / C02_openmp_schedule_independent: for EVERY interleaving of "
+         "the work items' atomic row updates (threading: items complete all files; OpenMP: barrier per chunk file, parts "
+         "computed in 32-bit arithmetic) every trained row holds the sequential Rescorla-Wagner result and every other cell "
+         "is untouched; C02_slice_list_partition, C02_omp_parts_partition; the work-queue transition system: for every "
+         "schedule no thread blocks in get() (C02_queue_never_blocks), items are conserved and each is worked exactly once "
+         "(C02_queue_exactly_once, C02_queue_all_done_all_items), every run ends within 5*items+3*threads moves "
+         "(C02_queue_terminates), with the unlocked contrast refuted. Partial: real preemption, the GIL, libgomp and the "
+         "memory model are observed (amplified runs + deadline), not modelled.",
+         "5 C02", "Coq proof (interleaving/row-locality, queue invariant, termination measure) + amplified differential runs"),
  "C06": ("proof", "Theorems C06_decode_encode, C06_kernel_reads_same (buffer re-allocation invariant, any ids per event), "
          "C06_bad_header_rejected / C06_good_chunks_accepted (any position in any chunk list), C06_flat_index_no_wrap / "
          "_injective (matrices with more than 2^32 cells), refuted variants for the pre-repair logic. Correspondence "
